@@ -492,6 +492,14 @@ func (e *Environment) Name() string {
 	return e.function.Inspect()
 }
 
+// Root returns the top level (globals) environment this one is nested in.
+func (e *Environment) Root() *Environment {
+	for e.outer != nil {
+		e = e.outer
+	}
+	return e
+}
+
 // Allows eval and others to walk up the stack of envs themselves
 // (using Name() to produce a stack trace for instance).
 func (e *Environment) StackParent() *Environment {
